@@ -16,7 +16,7 @@
    every upstream; the cache; every server closer, in registration order.
 
    Closers are modelled as [option nat] (Some i = the closer registered by step i, None = a nil func):
-   calling a nil closer is the Go nil-pointer panic, reported as the [Panicked] outcome.
+   calling a nil closer is the Go nil-pointer panic, reported as the [Panicked] su_outcome.
 
    [run]        = the code as FIXED (D13): a server closer is appended only when startServer succeeded.
    [run_pinned] = the pinned tree: `closer, err := r.startServer(..); r.serverClosers = append(.., closer)`
@@ -33,17 +33,17 @@ Record istep := { s_kind : skind; s_ok : bool }.
 (* what closeImpl does, in order *)
 Inductive call := CCancel | CLimiter | CUp (i : nat) | CCache (i : nat) | CSrv (i : nat).
 
-Record rt := {
+Record su_rt := {
   r_ups   : list nat;              (* r.upstreams (registration order) *)
   r_cache : option nat;            (* r.cache *)
   r_srv   : list (option nat);     (* r.serverClosers; None = nil func *)
   r_once  : bool                   (* closeOnce already fired *)
 }.
 
-Definition rt0 : rt := {| r_ups := []; r_cache := None; r_srv := []; r_once := false |}.
+Definition rt0 : su_rt := {| r_ups := []; r_cache := None; r_srv := []; r_once := false |}.
 
-Inductive outcome :=
-| Started  (r : rt)
+Inductive su_outcome :=
+| Started  (r : su_rt)
 | Failed   (k : nat) (calls : list call)    (* error of step k reported after running [calls] *)
 | Panicked (k : nat) (calls : list call).   (* nil closer called while closing after step k failed *)
 
@@ -55,18 +55,18 @@ Fixpoint call_closers (l : list (option nat)) : list call * bool :=
   | None :: _ => ([], true)
   end.
 
-Definition close_impl (r : rt) : list call * bool :=
+Definition close_impl (r : su_rt) : list call * bool :=
   let '(sc, p) := call_closers (r_srv r) in
   ([CCancel; CLimiter] ++ map CUp (r_ups r)
      ++ (match r_cache r with Some i => [CCache i] | None => [] end) ++ sc, p).
 
 (* r.close(err): sync.Once *)
-Definition close (r : rt) : rt * (list call * bool) :=
+Definition close (r : su_rt) : su_rt * (list call * bool) :=
   if r_once r then (r, ([], false))
   else ({| r_ups := r_ups r; r_cache := r_cache r; r_srv := r_srv r; r_once := true |}, close_impl r).
 
 (* effect of step number i on the router's registrations *)
-Definition reg (pinned : bool) (i : nat) (s : istep) (r : rt) : rt :=
+Definition reg (pinned : bool) (i : nat) (s : istep) (r : su_rt) : su_rt :=
   match s_kind s, s_ok s with
   | SMetricsListen, true =>
       {| r_ups := r_ups r; r_cache := r_cache r; r_srv := r_srv r ++ [Some i]; r_once := r_once r |}
@@ -83,7 +83,7 @@ Definition reg (pinned : bool) (i : nat) (s : istep) (r : rt) : rt :=
   | _, _ => r
   end.
 
-Fixpoint run_from (pinned : bool) (i : nat) (steps : list istep) (r : rt) : outcome :=
+Fixpoint run_from (pinned : bool) (i : nat) (steps : list istep) (r : su_rt) : su_outcome :=
   match steps with
   | [] => Started r
   | s :: tl =>
@@ -93,8 +93,8 @@ Fixpoint run_from (pinned : bool) (i : nat) (steps : list istep) (r : rt) : outc
            if p then Panicked i calls else Failed i calls
   end.
 
-Definition run (steps : list istep) : outcome := run_from false 0 steps rt0.
-Definition run_pinned (steps : list istep) : outcome := run_from true 0 steps rt0.
+Definition run (steps : list istep) : su_outcome := run_from false 0 steps rt0.
+Definition run_pinned (steps : list istep) : su_outcome := run_from true 0 steps rt0.
 
 (* ---- the specification side: which calls a close after the successful prefix [pre] must make ---- *)
 Definition is_up (k : skind) : bool := match k with SUpstream => true | _ => false end.
@@ -162,7 +162,7 @@ Fixpoint call_list_eqb (a b : list call) : bool :=
   | _, _ => false
   end.
 
-Definition startup_oracle (steps : list istep) (o : outcome) : bool :=
+Definition startup_oracle (steps : list istep) (o : su_outcome) : bool :=
   match o with
   | Started _ => all_ok steps
   | Failed k calls =>
@@ -171,7 +171,7 @@ Definition startup_oracle (steps : list istep) (o : outcome) : bool :=
   | Panicked _ _ => false
   end.
 
-Definition summary (o : outcome) : nat * nat * nat :=
+Definition summary (o : su_outcome) : nat * nat * nat :=
   match o with
   | Started r => (0, length (r_srv r), length (r_ups r))
   | Failed _ calls => (1, count_srv calls, count_up calls)
@@ -179,7 +179,7 @@ Definition summary (o : outcome) : nat * nat * nat :=
   end.
 
 (* a started router closed twice: calls of the first and of the second close *)
-Definition close_twice (o : outcome) : option ((list call * bool) * (list call * bool)) :=
+Definition close_twice (o : su_outcome) : option ((list call * bool) * (list call * bool)) :=
   match o with
   | Started r => let '(r1, c1) := close r in let '(_, c2) := close r1 in Some (c1, c2)
   | _ => None
